@@ -206,7 +206,9 @@ def gen(rng, tier, cfg):
 
 
 def run(chk, replay=None):
-    proof = proof_check(PID)
+    gens = gen_sources()
+    proof = proof_check(PID, gen_theorems=("OpsTable",))
+    proof = add_ops_table(proof, gens)
     drv = build_driver()
     exe = build_harness("default")
     cfg = harness_config(exe)
